@@ -111,7 +111,7 @@ def judge_json_line(line: str):
     if CTRL.search(line):
         probs.append('raw-control-character')
     try:
-        obj = json.loads(line, object_pairs_hook=_no_dup)
+        obj = core.strict_json(line)
     except ValueError as e:
         kind = 'duplicate-key' if 'duplicate key' in str(e) else 'not-json'
         return None, probs + [f'{kind}:{str(e)[:60]}']
